@@ -15,8 +15,10 @@ RULE = ("translator (T): the <P>_COMBINATOR terms and deserialize_<p> wrapper op
         "those terms.  correspondence (C): a byte-level fuzz stream is run through the REAL decoders (deserialize_<p> of nurikabe, "
         "masyu, slitherlink, sudoku, nurimisaki, yajilin, heyawake, lits, norinori; deserialize_problem and Combinator.deserialize at "
         "an offset for curated + random library combinator terms; the helpers _is_hex/_is_alnum_lower/_from_base16/_from_base36/"
-        "int(s, 10|16|36)/str.isdigit on every 1-3 character string over a 41-character alphabet) and through the extracted Coq model "
-        "(Codec/TotalModel.v over Codec/Comb.v); outcomes compared as None | value | error enum.  Stream: genuine URLs of every module "
+        "int(s, 10|16|36)/str.isdigit on every 1-3 character string over a 41-character alphabet; the URL regular expression's groups) "
+        "and through the extracted Coq model (Codec/Comb.v de / de_at, Codec/Puzzles.v deserialize_problem_cu / deserialize_url_cu, "
+        "Codec/Yajilin.v; side-condition predicates of Codec/TotalModel.v against their Python twins); outcomes compared as None | value "
+        "| error enum; URLs declaring a size of six or more digits are left to the search (the extracted model counts fuel in unary).  Stream: genuine URLs of every module "
         "and their mutations — every prefix of the body, delete/insert/replace of 1-3 characters, every URL-alphabet / separator / "
         "Latin-1 / non-Latin-1 digit character in every position class (scheme, host, '?', name, each size field, each slash, "
         "first/middle/last body character, appended), declared sizes 0 / 1 / off-by-one / swapped / huge / zero-padded / signed / "
@@ -27,14 +29,16 @@ RULE = ("translator (T): the <P>_COMBINATOR terms and deserialize_<p> wrapper op
         "declared size, and the module's serialize_<p> on non-empty boards), and decoding that canonical text must return the same "
         "value (type-strict ==).  A case is non-trivial when it is a distinct (decoder, text).")
 TRUSTED = [
-    "Codec/Comb.v, CombWf.v, CombBasics.v (C15's model of problem_serializer.py), Codec/Yajilin.v, Puzzles.v (C16) are imported "
-    "unchanged; Codec/TotalModel.v restates only the definitions touched by C17's fixes (HexInt digits, Rooms on empty boards, "
-    "non-URL text, negative yajilin clues) and is tied to the Python by this check's correspondence",
-    "CPython int()/str.isdigit/re semantics on Latin-1 text as transcribed in Codec/Comb.v (py_int, isdigit_c, url_match); validated "
-    "against the interpreter on every run (kinds 'helper:*', 'regex')",
+    "Codec/Comb.v, CombWf.v, CombBasics.v, CombLeaf.v, RoomsGrid.v (C15's model of problem_serializer.py and lemmas), Codec/Yajilin.v, "
+    "Puzzles.v, Url.v, Legacy.v (C16) are imported unchanged (they follow the code as it is after C17's fixes); C17 adds only "
+    "predicates (Codec/TotalModel.v) and proofs (Codec/Total*.v); the decode side of those models is tied to the Python again by this "
+    "check's own correspondence on malformed input",
+    "CPython int()/str.isdigit/re semantics on Latin-1 text as transcribed in Codec/Comb.v (py_int, isdigit_c, is_hex, is_alnum_lower, "
+    "url_match); validated against the interpreter on every run (kinds 'helper:*': every 1-3 character string over a 41-character "
+    "alphabet; 'regex': the four groups of _DESERIALIZE_URL_REG.match on every URL of the stream)",
     "independent reading of a URL by string splitting (c17lib.declared) and the shape predicates (rows x columns; rooms partition the "
     "board) used as the oracle for 'dimensions stated in the URL'",
-    "fail-closed translator harness/c16trans.py (shared with C16)",
+    "fail-closed translator harness/c16trans.py (shared with C16) producing Gen/Codecs.v",
 ]
 ASSUMPTIONS = [
     "text is modelled as Latin-1 (code points 0..255); strings with characters above U+00FF (e.g. Arabic-Indic or fullwidth digits, "
